@@ -39,6 +39,12 @@ MUTANTS = {
                                'if constexpr (HFL == BCD || HFL == DAC || HFL == ABC) {return C;}', 'if constexpr (HFL == BDC || HFL == CAD || HFL == ABD) {return D;}'),
                               'labels'),
     'tet-add-cell-vertex-count-fix-reverted': ('C15', TK, 'if(vhs.size() != 4) {', 'if(false) {', 'additions-dangling'),
+    # C03 stage (property values through collapse_edge): python3 bin/tethex_check.py C03
+    'c03-collapse-cell-props-not-moved': ('C03', TK, '        swap_property_elements(n.first, newCell);\n', '', 'collapse-1'),
+    # (swapping with the opposite halfedge instead is an equivalent mutant: every link halfedge is met twice per cell)
+    'c03-collapse-halfedge-props-shifted': ('C03', TK, 'swap_property_elements(hf.halfedges()[j], heh);', 'swap_property_elements(hf.halfedges()[(j + 1) % 3], heh);', 'collapse-1'),
+    'c03-collapse-halfface-props-shifted': ('C03', TK, 'swap_property_elements(c.halffaces()[hf_idx], hfh);', 'swap_property_elements(c.halffaces()[(hf_idx + 1) % 4], hfh);', 'collapse-1'),
+    'c03-collapse-vertex-props-disturbed': ('C03', TK, '    delete_vertex(from_vh);\n\n    for (const auto &n: new_cells) {', '    swap_property_elements(from_vh, to_vh);\n    delete_vertex(from_vh);\n\n    for (const auto &n: new_cells) {', 'collapse-1'),
     'tet-label-getlabel-halfedge': ('C15', TTC, 'return opposite(hel);', 'return hel;', 'labels'),
     'tet-label-constructor-cd': ('C15', TTC, 'hfh<ACD>() = cur_hfh;\n                heh_[CD] = *heh_it;', 'hfh<ACD>() = cur_hfh;\n                heh_[CD] = heh;', 'labels'),
     'tet-triangle-start': ('C15', TRC, 'if (idx == 0 && _mesh.from_vertex_handle(heh) != _a) {', 'if (idx == 0 && _mesh.to_vertex_handle(heh) != _a) {', 'labels'),
